@@ -887,3 +887,69 @@ def _(repo):
             if "_set_derivatives(params, self.derivative_keys.initial_condition)" not in src:
                 ok = False
     return f"Definition gen_terms_use_their_own_mask : bool := {'true' if ok else 'false'}."
+
+
+# =============================================================== G_params (C12)
+PRM = "jinns/parameters/_params.py"
+DLA = "jinns/loss/_DynamicLossAbstract.py"
+header("G_params", ZHDR)
+
+
+@anchor("G_params", "vmap_axes")
+def _(repo):
+    f = find_func(parse(repo, PRM), "_get_vmap_in_axes_params")
+    first = f.body[0] if not isinstance(f.body[0], ast.Expr) else f.body[1]
+    none_ok = isinstance(first, ast.If) and ast.unparse(first.test) == "eq_params_batch_dict is None" and ast.unparse(first.body[0]) == "return (None,)"
+    comp = one([n for n in ast.walk(f) if isinstance(n, ast.DictComp)], "dict comprehension")
+    if ast.unparse(comp.key) != "k" or ast.unparse(comp.generators[0].iter) != "params.eq_params.keys()":
+        raise Untranslatable("comprehension iterates differently")
+    v = comp.value
+    if not isinstance(v, ast.IfExp) or ast.unparse(v.test) not in ("k in eq_params_batch_dict.keys()", "k in eq_params_batch_dict"):
+        raise Untranslatable("axis expression changed: " + ast.unparse(v))
+    ax = lambda e: "None" if ast.unparse(e) == "None" else f"(Some {zexpr(e, {})})"
+    ctor = one([c for c in ast.walk(f) if isinstance(c, ast.Call) and ast.unparse(c.func) == "type(params)"], "type(params)(...)")
+    nn = [k for k in ctor.keywords if k.arg == "nn_params"]
+    nn_ok = len(nn) == 1 and ast.unparse(nn[0].value) == "None"
+    return (f"Definition gen_axis_for_key (in_batch : bool) : option Z := if in_batch then {ax(v.body)} else {ax(v.orelse)}.\n"
+            f"Definition gen_axes_wiring : bool := {'true' if (none_ok and nn_ok) else 'false'}.")
+
+
+@anchor("G_params", "merge")
+def _(repo):
+    f = find_func(parse(repo, PRM), "_update_eq_params_dict")
+    lam = one([n for n in ast.walk(f) if isinstance(n, ast.Lambda) and [a.arg for a in n.args.args] == ["p", "q"]], "merge lambda")
+    b = ast.unparse(lam.body)
+    if b == "q if q is not None else p":
+        take = "true"
+    elif b in ("p", "p if q is not None else p"):
+        take = "false"
+    else:
+        raise Untranslatable("merge lambda changed: " + b)
+    src = ast.unparse(f)
+    ok = ("param_batch_dict | {k: None for k in set(params.eq_params.keys()) - set(param_batch_dict.keys())}" in src
+          and "eqx.tree_at(lambda p: p.eq_params, params, jax.tree_util.tree_map(" in src and "params.eq_params, param_batch_dict_)" in src
+          and ast.unparse(one(returns(f), "return")) == "params")
+    return (f"Definition gen_merge_takes_batch (present : bool) : bool := present && {take}.\n"
+            f"Definition gen_merge_wiring : bool := {'true' if ok else 'false'}.")
+
+
+@anchor("G_params", "heterogeneity")
+def _(repo):
+    mod = parse(repo, DLA)
+    f = find_func(mod, "_eval_heterogeneous_parameters")
+    src = ast.unparse(f)
+    ok = ("if eq_params_heterogeneity is None:\n        return params.eq_params" in src
+          and "for k, p in params.eq_params.items():" in src
+          and "if eq_params_heterogeneity[k] is None:\n                eq_params_[k] = p" in src
+          and "eq_params_[k] = eq_params_heterogeneity[k](t, u, params)" in src
+          and "eq_params_[k] = eq_params_heterogeneity[k](x, u, params)" in src
+          and "eq_params_[k] = eq_params_heterogeneity[k](t, x, u, params)" in src
+          and "except KeyError:\n            eq_params_[k] = p" in src
+          and ast.unparse(one(returns(f)[-1:], "r")) == "eq_params_")
+    d = find_func(mod, "_decorator_heteregeneous_params")
+    dsrc = ast.unparse(d)
+    ok2 = all(s in dsrc for s in ["_params = eqx.tree_at(lambda p: p.eq_params, params, self._eval_heterogeneous_parameters(t, None, u, params, self.eq_params_heterogeneity))",
+                                  "self._eval_heterogeneous_parameters(None, x, u, params, self.eq_params_heterogeneity)",
+                                  "self._eval_heterogeneous_parameters(t, x, u, params, self.eq_params_heterogeneity)",
+                                  "new_args = args[:-1] + (_params,)", "res = evaluate(*new_args)"])
+    return f"Definition gen_heterogeneity_wiring : bool := {'true' if (ok and ok2) else 'false'}."
